@@ -71,9 +71,9 @@ def run_case(case: dict[str, Any], wd: Path) -> dict[str, Any]:
         # particles at the surface and at the bottom
         for k, row in enumerate(scn["run"]["release"]["rows"]):
             if k % 3 == 0:
-                row[3] = 0.0
+                row[4] = 0.0
             elif k % 3 == 1:
-                row[3] = 60.0
+                row[4] = 60.0
     elif fam == "c14":
         from vmon.props import C14  # noqa: PLC0415
 
